@@ -544,4 +544,39 @@ def cellOK (w : Want) (old new : TCell) : Bool :=
      | .chars bs => lineGlyphOK m bs
      | _ => false) && penSame new.pen p && new.writes == old.writes + 1
 
+/-! ## Well-formedness of a buffer as far as the flush looks at it (decidable form)
+
+  The Prop form (`FlushWFP`, Proof/RBFlushSpec.lean) is the hypothesis of `flush_spec`; this Bool form is proved to imply
+  it, is used for the non-vacuity examples, and is evaluated by the driver on every buffer that is flushed. -/
+
+def charOKb (cp : Int) : Bool :=
+  decide (Utf8.nextUtf8 (Utf8.put cp.toNat) 0 (some (Utf8.put cp.toNat).length) =
+    some ⟨(Utf8.put cp.toNat).length, cp.toNat⟩) && decide (Utf8.wcwidth cp.toNat = 1)
+
+def textOKb (cell : Cell) : Bool :=
+  match decode cell.text with
+  | some cs => decide (0 ≤ cell.offs) && decide (cell.offs + cell.cols ≤ chCols cs)
+  | none => false
+
+def runAtB (okb : Int → Bool) (rb : RB) (line col : Int) : Bool :=
+  let cell := rb.cell line col
+  decide (cell.state ≠ .cont) && decide (1 ≤ cell.cols) && decide (col + cell.cols ≤ rb.cols) &&
+  ((List.range (cell.cols - 1).toNat).all fun j =>
+    decide ((rb.cell line (col + 1 + j)).state = .cont) && decide ((rb.cell line (col + 1 + j)).cols = col)) &&
+  (!(decide (cell.state = .line) || decide (cell.state = .char)) || decide (cell.cols = 1)) &&
+  (!decide (cell.state = .line) || (decide (1 ≤ cell.lmask) && decide (cell.lmask < 256))) &&
+  (!decide (cell.state = .char) || okb cell.cp) &&
+  (!decide (cell.state = .text) || textOKb cell)
+
+def tiledB (okb : Int → Bool) (rb : RB) (line : Int) : Nat → Int → Bool
+  | 0, col => decide (col = rb.cols)
+  | n + 1, col =>
+    decide (col = rb.cols) ||
+    (decide (col < rb.cols) && runAtB okb rb line col && tiledB okb rb line n (col + (rb.cell line col).cols))
+
+def flushWFPb (okb : Int → Bool) (rb : RB) : Bool :=
+  (List.range rb.lines.toNat).all fun l => tiledB okb rb (l : Int) rb.cols.toNat 0
+
+def flushWFb (rb : RB) : Bool := flushWFPb charOKb rb
+
 end Tickit.RBFlush
